@@ -221,6 +221,7 @@ class World:
         self.hspec: dict[int, dict] = {}
         self.counters: dict[str, int] = {}
         self.memo: dict[str, tuple] = {}
+        self.trace: list = []
         self.probe_before: dict[int, list] | None = None
         self.t0 = self.clock.now
         for i in range(len(plan["envs"])):
@@ -378,6 +379,7 @@ class World:
         ei = h["env"]
         fresh = self.fresh_for(ei, hid)
         exp, _ = self.call(fresh, step, solo_sid=ref_sid or f"r{step['id']}")
+        self.trace.append([step["id"], label, got, exp])
         self.activate(self.shared, ei)
         fault = step.get("fault")
         if fault and fault["kind"] == "cancel_j":
@@ -692,6 +694,7 @@ def execute(plan: dict) -> dict:
     spice = sum(1 for s in plan["steps"] if s["op"] in ("advance", "configure", "sweep", "par") or s.get("fault"))
     res = {
         "status": status,
+        "trace": digest(w.trace if w is not None else []),
         "counters": c,
         "sim_seconds": simclock.CLOCK.advanced,
         "digest": digest([plan["envs"], plan["steps"], segs.decisions]),
